@@ -51,7 +51,7 @@ CHECKS = {
                 "flattened index = row*W + col on integer coordinates of the same geometry; compositions centre->index->centre and scaled->pixels->scaled reduce to the identity by substitution of forms; "
                 "Geometry2D/1D minima/maxima/extent = origin -/+ shape*scale/2 in (x_min, x_max, y_min, y_max) order; the five shape-mask constructors start all-masked and unmask [y, x] exactly under the documented "
                 "radial inequality of the pixel-centre offset from `centre` (each ellipse with its own angle / axis ratio / radius); Geometry2D methods pass their own geometry triple; the 1-D grid from a mask holds x = ox + (x - (W-1)/2) s. "
-                "Not decided: floating-point behaviour in the tie band, trigonometry of the elliptical radius (uninterpreted), containment of arbitrary query coordinates as numbers.",
+                "Not decided: floating-point behaviour in the tie band, trigonometry of the elliptical radius (uninterpreted), containment of arbitrary query coordinates as numbers. The grid from mask has one row per unmasked pixel in row-major order (slim-counter typestate) and shape (unmasked pixels, 2).",
         "note": "Trusted: Python ast, E1 resolver, int() on non-negative arguments canonicalised with floor division, reference forms entered from the property statement.",
         "technique": "static analysis: polynomial-normal-form constant propagation over kernels and class-layer properties + canonical-form equality; composition by substitution; normalised guard comparison; keyword wiring rule",
     },
